@@ -142,6 +142,9 @@ func (s *scenario) okReply(c kafka.VerifCoordCall) kafka.VerifCoordReply {
 		if s.rng.Intn(2) == 0 {
 			r.LeaderID = m
 			r.Members = []kafka.VerifGroupMember{{ID: m, Topics: s.topics}}
+			if s.errRate > 0 && s.rng.Intn(8) == 0 {
+				r.Protocol = "no-such-balancer" // the leader's assignment step fails locally
+			}
 		}
 		return r
 	case "syncGroup":
@@ -152,6 +155,9 @@ func (s *scenario) okReply(c kafka.VerifCoordCall) kafka.VerifCoordReply {
 					a[t] = append(a[t], int32(i))
 				}
 			}
+		}
+		if s.errRate > 0 && s.rng.Intn(10) == 0 {
+			return kafka.VerifCoordReply{RawAssign: []byte{0, 1, 0, 0, 0, 9, 0}} // undecodable assignment
 		}
 		return kafka.VerifCoordReply{Assignments: a}
 	case "offsetFetch":
